@@ -24,10 +24,6 @@ using namespace wn;
 
 namespace {
 
-#include <sys/resource.h>
-static long flt_now() { rusage r; getrusage(RUSAGE_SELF, &r); return r.ru_minflt; }
-static double cpu_now() { timespec ts; clock_gettime(CLOCK_PROCESS_CPUTIME_ID, &ts); return ts.tv_sec + ts.tv_nsec * 1e-9; }
-
 enum Outcome { O_CONFLICTED = 0, O_ABANDONED, O_UNTRUSTED, O_CB_MATURED, O_REORG, O_RESERVED, O_TRUSTED_POOL, O_MEMPOOL_CONFLICT, O_IMMATURE_CHANGED, O_RESTORED, O_HARNESS_ERROR = 15 };
 
 struct Sim {
@@ -44,6 +40,8 @@ struct Sim {
     Txid cb1;                              // the wallet coinbase that matures during the exploration
     int base_height{0};
     std::map<Txid, St> prev_status;
+    std::optional<RefView> cur;            // view of the current state (valid until the next event is applied)
+    RefView& Cur() { if (!cur) cur = w.View(); return *cur; }
 
     explicit Sim(ck::Node& node) : n(node), w(node) {}
 
@@ -163,10 +161,9 @@ struct Sim {
     // ---------------------------------------------------------------------------------------- events
     std::vector<std::string> Events()
     {
-        RefView v = w.View();
-        std::vector<std::string> ev;
-        auto has = [&](const char* e) { return std::find(alphabet.begin(), alphabet.end(), e) != alphabet.end(); };
-        auto add = [&](const char* e) { if (has(e)) ev.push_back(e); };
+        RefView& v = Cur();
+        std::set<std::string> enabled;
+        auto add = [&](const char* e) { enabled.insert(e); };
         if (n_rb < 2) add("RB");
         if (n_rm < 2) add("RM");
         if (!v.coins_safe.empty() && n_send < 4) { add("S"); add("SU"); }
@@ -180,6 +177,8 @@ struct Sim {
         if (Victim(v, recvs, false)) add("DR");
         add("RO1"); add("RO2"); add("RO3");
         if (SideHead()) add("RX");
+        std::vector<std::string> ev; // in the order of the alphabet (the search is depth-first: first events are explored first)
+        for (auto& a : alphabet) if (enabled.count(a)) ev.push_back(a);
         return ev;
     }
 
@@ -232,14 +231,7 @@ struct Sim {
     void Apply(const std::string& e)
     {
         try {
-            double t0 = vx::elapsed();
             ApplyInner(e);
-            double t1 = vx::elapsed();
-            if (getenv("C44_TIMING")) {
-                Key(); double t2 = vx::elapsed(); Events(); double t3 = vx::elapsed();
-                RefView v = w.View(); double t4 = vx::elapsed(); w.Compare(v); double t5 = vx::elapsed();
-                fprintf(stderr, "[timing] %s apply=%.3f key=%.3f events=%.3f view=%.3f compare=%.3f\n", e.c_str(), t1 - t0, t2 - t1, t3 - t2, t4 - t3, t5 - t4);
-            }
         } catch (const std::exception& ex) {
             fs.sh->outcome_classes[O_HARNESS_ERROR]++;
             fprintf(stderr, "HARNESS-ERROR in event %s after [%s]: %s\n", e.c_str(), fs.hist_str().c_str(), ex.what());
@@ -249,23 +241,18 @@ struct Sim {
 
     void ApplyInner(const std::string& e)
     {
-        double ta = cpu_now();
-        RefView v = w.View();
+        RefView v = Cur();
+        cur.reset();
         uint256 tip_before = n.tip()->GetBlockHash();
-        if (getenv("C44_TIMING")) fprintf(stderr, "[timing]   first view %.3f faults=%ld\n", cpu_now() - ta, flt_now());
         if (e == "RB" || e == "RM") {
             auto ext = w.ExternalCoins();
-            if (getenv("C44_TIMING")) fprintf(stderr, "[timing]   ext %.3f\n", cpu_now() - ta);
             bool blk = e == "RB";
             int k = blk ? n_rb : n_rm;
             CAmount val = (blk ? 8000000 : 32000000) * (k + 1);
             auto tx = World::Pay(ext.at(0), {{recv_spk[(blk ? 0 : 2) + k], val}});
             if (blk) { w.MineTip({tx}); n_blocks++; n_rb++; }
             else {
-                auto r = n.SubmitTx(tx);
-                if (getenv("C44_TIMING")) fprintf(stderr, "[timing]   submitted %.3f faults=%ld\n", cpu_now() - ta, flt_now());
-                Flush(n);
-                if (getenv("C44_TIMING")) fprintf(stderr, "[timing]   flushed %.3f faults=%ld\n", cpu_now() - ta, flt_now());
+                auto r = w.Submit(tx);
                 if (r.m_result_type != MempoolAcceptResult::ResultType::VALID) throw std::logic_error("external payment rejected by the mempool: " + r.m_state.ToString());
                 n_rm++;
             }
@@ -353,15 +340,13 @@ struct Sim {
         } else {
             throw std::logic_error("unknown event " + e);
         }
-        if (getenv("C44_TIMING")) fprintf(stderr, "[timing]   before check %.3f\n", cpu_now() - ta);
         Check(e, tip_before);
-        if (getenv("C44_TIMING")) fprintf(stderr, "[timing]   after check %.3f\n", cpu_now() - ta);
     }
 
     // ---------------------------------------------------------------------------------------- oracle
     void Check(const std::string& e, const uint256& tip_before)
     {
-        RefView v = w.View();
+        RefView& v = Cur();
         std::string d = w.Compare(v);
         if (!d.empty()) fs.report("C44-mismatch:" + e + ":" + d.substr(0, d.find(':')), "after '" + e + "': " + d + " | " + Describe(v));
         // abandonability == inactive by the reference
@@ -417,7 +402,7 @@ struct Sim {
 
     uint64_t Key()
     {
-        RefView v = w.View();
+        RefView& v = Cur();
         std::string k = n.tip()->GetBlockHash().ToString();
         for (auto& [id, tx] : v.pool) { (void)tx; k += "p" + id.ToString().substr(0, 16); }
         for (auto& id : w.order) {
@@ -446,19 +431,15 @@ int main(int argc, char** argv)
     vx::scratch_dir();
     auto& E = vx::ev();
     const bool big = vx::thorough();
-    ck::Node node(wn::DeferredOpts());
+    ck::NodeOpts nopts;
+    nopts.min_validation_cache = true;      // 32 MiB of signature / script caches would be copied page by page in every fork
+    nopts.mempool_check_ratio = getenv("C44_POOLCHECK") ? 1 : 0;
+    ck::Node node(wn::DeferredOpts(nopts));
     Sim sim(node);
     sim.Init();
-    if (getenv("C44_TIMING")) {
-        fprintf(stderr, "[timing] init done at %.2fs\n", vx::elapsed());
-        double t0 = vx::elapsed(), c0 = cpu_now();
-        for (int i = 0; i < 20; i++) { pid_t p = fork(); if (p == 0) _exit(0); int st; waitpid(p, &st, 0); }
-        fprintf(stderr, "[timing] 20 x fork+exit: wall %.3f parent-cpu %.3f\n", vx::elapsed() - t0, cpu_now() - c0);
-        std::ifstream st("/proc/self/status"); std::string l; while (std::getline(st, l)) if (l.rfind("VmRSS", 0) == 0 || l.rfind("VmSize", 0) == 0 || l.rfind("VmPTE", 0) == 0) fprintf(stderr, "[timing] %s\n", l.c_str());
-    }
     if (ck::ThreadCount() != 1) { printf("HARNESS-ERROR process is not single-threaded (%d threads): fork exploration would be unsound\n", ck::ThreadCount()); return 2; }
 
-    const std::vector<std::string> full{"RB", "RM", "S", "SU", "AB", "RS", "M", "ME", "CBW", "DS", "DM", "DR", "RO1", "RO2", "RO3", "RX"};
+    const std::vector<std::string> full{"S", "DS", "RO1", "SU", "AB", "DM", "RX", "M", "RM", "RB", "DR", "ME", "CBW", "RS", "RO2", "RO3"};
     sim.alphabet = full;
     if (const char* a = getenv("C44_ALPHABET")) {
         sim.alphabet.clear();
